@@ -153,7 +153,7 @@ func muxPatterns(rootPath string) []string {
 }
 
 func (c *Container) Remove(ws *WebService) error {
-	if c.ServeMux == http.DefaultServeMux {
+	if c.serveMux() == http.DefaultServeMux {
 		errMsg := fmt.Sprintf("cannot remove a WebService from a Container using the DefaultServeMux: ['%v']", ws)
 		log.Print(errMsg)
 		return errors.New(errMsg)
